@@ -95,8 +95,12 @@ class Sock(Script):
             raise oserr(errno.EBADF)
         return self.do_recv(bs)
 
+    shut_exc = None                # what shutdown() raises on this socket (an OSError family member), if anything
+
     def shutdown(self, how):
         self.shutdowns.append(how)
+        if self.shut_exc is not None:
+            raise self.shut_exc
         if self.closed:
             raise oserr(errno.EBADF)
 
